@@ -183,6 +183,66 @@ fn lazy_graph_case(bits: usize) -> Case {
     c
 }
 
+
+/// Paths spelled in ways that do not look "canonical" (a leading `./`, a doubled separator, a `.` component):
+/// whatever the spelling, the statement of the property holds for it - the same spelling imported again
+/// (at top level, in a function, from another module) yields the one module object, its body runs once,
+/// and a cycle written with such spellings is reported as ImportError.  The module table serves every
+/// spelling and its cleaned-up form with the same text, as a file system would.
+fn odd_spellings() -> Vec<Case> {
+    let mut out = Vec::new();
+    let clean = |p: &str| -> String { p.split('/').filter(|c| !c.is_empty() && *c != ".").collect::<Vec<_>>().join("/") };
+    let counter = |label: &str| -> Vec<Stmt> {
+        vec![
+            print_stmt(s(&format!("load {}", label))),
+            var_stmt("count", num(0.0)),
+            fn_stmt(func("bump", &[], vec![expr_stmt(Expr::CompoundAssign("count".into(), BinOp::Add, Box::new(num(1.0)))), st(StmtKind::Return(Some(var("count"))))])),
+        ]
+    };
+    for sp in ["./cnt", ".//cnt", "d/./cnt", "d//cnt", "./d/cnt", "cnt/."] {
+        let mut modules = BTreeMap::new();
+        for key in [sp.to_string(), clean(sp)] {
+            modules.insert(key, ModuleSource { program: Some(counter("counter")), compile_error: false });
+        }
+        // a second module that imports the counter with the same spelling
+        let via = vec![print_stmt(s("load via")), st(StmtKind::Import(sp.to_string(), Some("inner".into()))), fn_stmt(func("get", &[], vec![st(StmtKind::Return(Some(var("inner"))))]))];
+        modules.insert("via".to_string(), ModuleSource { program: Some(via), compile_error: false });
+        let main = vec![
+            st(StmtKind::Import(sp.to_string(), Some("x".into()))),
+            print_stmt(invoke(var("x"), "bump", vec![])),
+            print_stmt(invoke(var("x"), "bump", vec![])),
+            st(StmtKind::Import(sp.to_string(), Some("y".into()))),
+            print_stmt(bin(BinOp::Eq, var("y"), var("x"))),
+            print_stmt(get(var("y"), "count")),
+            fn_stmt(func("later", &[], vec![st(StmtKind::Import(sp.to_string(), Some("z".into()))), st(StmtKind::Return(Some(var("z"))))])),
+            print_stmt(bin(BinOp::Eq, call(var("later"), vec![]), var("x"))),
+            print_stmt(bin(BinOp::Eq, call(var("later"), vec![]), var("x"))),
+            st(StmtKind::Import("via".into(), None)),
+            print_stmt(bin(BinOp::Eq, invoke(var("via"), "get", vec![]), var("x"))),
+            print_stmt(invoke(var("x"), "bump", vec![])),
+        ];
+        let mut c = Case::new("odd_spellings_of_a_path", main);
+        c.modules = modules;
+        out.push(c);
+        // a cycle of two modules that name each other with such a spelling
+        let (pa, pb) = (sp.replace("cnt", "ping"), sp.replace("cnt", "pong"));
+        let mut modules = BTreeMap::new();
+        let ping = vec![print_stmt(s("load ping")), var_stmt("name", s("ping")), guarded_import("ping", &pb, Some("other")), print_stmt(s("loaded ping"))];
+        let pong = vec![print_stmt(s("load pong")), var_stmt("name", s("pong")), guarded_import("pong", &pa, Some("other")), print_stmt(s("loaded pong"))];
+        for key in [pa.clone(), clean(&pa)] {
+            modules.insert(key, ModuleSource { program: Some(ping.clone()), compile_error: false });
+        }
+        for key in [pb.clone(), clean(&pb)] {
+            modules.insert(key, ModuleSource { program: Some(pong.clone()), compile_error: false });
+        }
+        let main = vec![st(StmtKind::Import(pa.clone(), Some("p".into()))), print_stmt(get(var("p"), "name")), st(StmtKind::Import(pb.clone(), Some("q".into()))), print_stmt(get(var("q"), "name")), st(StmtKind::Import(pa.clone(), Some("p2".into()))), print_stmt(bin(BinOp::Eq, var("p2"), var("p")))];
+        let mut c = Case::new("odd_spellings_in_a_cycle", main);
+        c.modules = modules;
+        out.push(c);
+    }
+    out
+}
+
 fn placements() -> Vec<Case> {
     let mut out = Vec::new();
     let mods = |extra: Vec<(&str, ModuleSource)>| -> BTreeMap<String, ModuleSource> {
@@ -600,7 +660,7 @@ pub fn run(ctx: &Ctx) -> Report {
     let graphs = (0..total).map(graph_case);
     // the deferred form needs main to import something: 3584 graphs
     let lazy = (0..total).filter(move |b| (b >> 9) != 0).map(lazy_graph_case);
-    let cases = placements().into_iter().chain(lazy.collect::<Vec<_>>()).into_iter().chain(reimport_changes_nothing()).chain(crossings()).chain(fibers_from_other_modules()).chain(graphs);
+    let cases = placements().into_iter().chain(odd_spellings()).chain(lazy.collect::<Vec<_>>()).into_iter().chain(reimport_changes_nothing()).chain(crossings()).chain(fibers_from_other_modules()).chain(graphs);
     let hooks = Hooks {
         attribute: &|_c, _m, _o, _mm| None,
         nontrivial: &|c, m| c.modules.len() >= 2 && m.out.iter().filter(|l| l.starts_with("load ")).count() >= 2 || m.out.iter().any(|l| l.contains("failed")) || matches!(m.outcome, Outcome::Uncaught(_)),
@@ -610,7 +670,7 @@ pub fn run(ctx: &Ctx) -> Report {
     mcheck::fill_report(
         &mut report,
         &stats,
-        "every import graph over {main, a, b, c}: each of the 6 module-to-module edges, 3 self-loops and 3 edges from main independently present or absent (4096 graphs); every import inside a module sits in its own try/catch and is followed by a use; every module prints when its body runs, defines the same global names, and reads every one of the 30 built-in names; main reads, writes and calls through each module object, imports it again under an alias and compares identity, and probes that nothing leaked. The same graphs with every module-to-module import deferred into a function `late` of the importing module, which main calls three times after loading (the 3584 graphs in which main imports something): no import meets a module still loading, every body runs once, cycles and self-imports bind the one module object, renamings by main are seen through every import. Plus placements: import inside a function called 0/1/2 times, missing and uncompilable modules (caught, uncaught, aliased), a path with a directory, two modules of the same file name in different directories (one a global of main, the other imported without an alias inside a function / block / loop body / lambda), a three-module cycle. Plus 48 sequences of three or four programs on one interpreter (a module loaded by the first program - which ends normally or with one of five uncaught errors, optionally followed by a program that does not compile - is still loaded, with its state, for the next programs, imported at top level, in a function, through another module, under an alias). Plus `reimport_changes_nothing`: a module that defines globals under names built-ins also have and receives attributes from outside, imported again in every ordered pair of six ways (alias, same name, in a function, in a fiber, in try, through another module) with the module's and the importer's view printed after each. Plus exceptions that cross module frames: a module body that throws / imports a missing, an uncompilable, its importing (cycle) or a throwing module without a handler, or a function of another module that throws / fails an import / throws through its own finally; caught in the importer (main or a module) directly, through a function, or after a finally block that itself uses globals; straight after the handler the importer reads, defines and assigns its own globals and the check confirms where they landed. Plus fibers whose code lives in another module (made by a function of that module, stored in it, or built here from its function), run to their end from main or from a module that then uses its own globals at once. non-trivial = at least two module bodies ran, or an import failed.",
+        "every import graph over {main, a, b, c}: each of the 6 module-to-module edges, 3 self-loops and 3 edges from main independently present or absent (4096 graphs); every import inside a module sits in its own try/catch and is followed by a use; every module prints when its body runs, defines the same global names, and reads every one of the 30 built-in names; main reads, writes and calls through each module object, imports it again under an alias and compares identity, and probes that nothing leaked. The same graphs with every module-to-module import deferred into a function `late` of the importing module, which main calls three times after loading (the 3584 graphs in which main imports something): no import meets a module still loading, every body runs once, cycles and self-imports bind the one module object, renamings by main are seen through every import. Plus placements: import inside a function called 0/1/2 times, missing and uncompilable modules (caught, uncaught, aliased), a path with a directory, two modules of the same file name in different directories (one a global of main, the other imported without an alias inside a function / block / loop body / lambda), a three-module cycle; six spellings of a path that are not in a cleaned-up form (leading `./`, doubled separators, `.` components, served by the module table under both forms): the same spelling imported again at top level, in a function and from another module is the one module, loaded once, and a cycle written with such spellings is an ImportError. Plus 48 sequences of three or four programs on one interpreter (a module loaded by the first program - which ends normally or with one of five uncaught errors, optionally followed by a program that does not compile - is still loaded, with its state, for the next programs, imported at top level, in a function, through another module, under an alias). Plus `reimport_changes_nothing`: a module that defines globals under names built-ins also have and receives attributes from outside, imported again in every ordered pair of six ways (alias, same name, in a function, in a fiber, in try, through another module) with the module's and the importer's view printed after each. Plus exceptions that cross module frames: a module body that throws / imports a missing, an uncompilable, its importing (cycle) or a throwing module without a handler, or a function of another module that throws / fails an import / throws through its own finally; caught in the importer (main or a module) directly, through a function, or after a finally block that itself uses globals; straight after the handler the importer reads, defines and assigns its own globals and the check confirms where they landed. Plus fibers whose code lives in another module (made by a function of that module, stored in it, or built here from its function), run to their end from main or from a module that then uses its own globals at once. non-trivial = at least two module bodies ran, or an import failed.",
         json!({"modules": 4, "graphs": total}),
     );
     // several programs on one interpreter
